@@ -555,7 +555,17 @@ def main(ctx, replay):
                     _, sel_s, m_ts, sg_hex = mr.split(",")
                     sel = int(sel_s)
                     blob = bytes.fromhex(sg_hex)
-                    secret, m_msg = blob.split(b"\n", 1)      # the model's canonical string, with the real digest in hex
+                    # the model's transparent stand-in for HMAC is secret ++ "\n" ++ canonical string (with the real digest in hex); the
+                    # secret itself may contain a newline, so it is cut off by its length (the secret of the version the model selected)
+                    m_secret = None
+                    if vs and 1 <= sel <= len(vs):
+                        m_secret = load_ref(vs[sel - 1]["ref"], c.get("env", {}))
+                    elif not vs:
+                        m_secret = load_ref(c["secret_ref"], c.get("env", {}))
+                    if m_secret is not None and blob.startswith(m_secret.encode("latin-1") + b"\n"):
+                        secret, m_msg = blob[:len(m_secret.encode("latin-1"))], blob[len(m_secret.encode("latin-1")) + 1:]
+                    else:
+                        secret, m_msg = blob.split(b"\n", 1)
                     m_sig = pyhmac.new(secret, m_msg, hashlib.sha256).hexdigest()
                     rv = recv[0]
                     if rv["header"].get(canon_key(th), []) != [m_ts] or rv["header"].get(canon_key(sh), []) != [m_sig]:
